@@ -745,6 +745,63 @@ theorem mpic_shown_dw (nd : Node) (h : LayerOK nd) (hdw : nd.kind = .dw) (e o a 
       modKeys, staticVars, torchKeys, Spec.val, Spec.get?, Spec.set, List.lookup, hdw, hlt,
       -mul_eq_mul_right_iff, -mul_eq_mul_left_iff]; try ring)
 
+/-! ### hard mode over a list of call sites -/
+
+theorem paramsBit_on_exact (idxs : List Nat) (p : Prog) (c : Cfg) (α : QId → List Rat)
+    (hl : ∀ i ∈ idxs, LayerOK (p.nd i))
+    (hn : ∀ q, (α q).length = (precOf p c q).length ∧ α q ≠ []) :
+    netCostOn idxs paramsBit p c (hardSampled α)
+      = ratSum (idxs.map fun i =>
+          numWeights (p.nd i) (effIn p (outEffOf p c (hardSampled α)) i)
+            * ((planOf p c α (.layer i)).wS.getD default).bits) := by
+  unfold netCostOn
+  congr 1
+  apply List.map_congr_left
+  intro i hi
+  have hq := hn (inQ p (.layer i))
+  have hw := hn (wQ p i)
+  have hki : argmax (α (inQ p (.layer i))) < (precOf p c (inQ p (.layer i))).length := by
+    rw [← hq.1]; exact argmax_lt _ hq.2
+  have hkw : argmax (α (wQ p i)) < (precOf p c (wQ p i)).length := by
+    rw [← hw.1]; exact argmax_lt _ hw.2
+  have := layerCost_onehot (paramsBit (p.nd i))
+    (modifiedVars modKeys (p.nd i) (effIn p (outEffOf p c (hardSampled α)) i) (p.nd i).cout)
+    (precOf p c (inQ p (.layer i))) (precOf p c (wQ p i)) _ _ hki hkw
+  rw [paramsBit_shown (p.nd i) (hl i hi), ← mul_assoc, ← numWeights_eq] at this
+  simp only [layerCostOf, baseSpec, hardSampled, wShares, sampleHard, hq.1, hw.1, planOf, selOf,
+    Option.getD_some] at this ⊢
+  exact this
+
+theorem opsBit_on_exact (idxs : List Nat) (p : Prog) (c : Cfg) (α : QId → List Rat)
+    (hl : ∀ i ∈ idxs, LayerOK (p.nd i))
+    (hn : ∀ q, (α q).length = (precOf p c q).length ∧ α q ≠ []) :
+    netCostOn idxs opsBit p c (hardSampled α)
+      = ratSum (idxs.map fun i =>
+          numWeights (p.nd i) (effIn p (outEffOf p c (hardSampled α)) i) * positions (p.nd i)
+            * ((planOf p c α (.layer i)).wS.getD default).bits
+            * (planOf p c α (.layer i)).inS.bits) := by
+  unfold netCostOn
+  congr 1
+  apply List.map_congr_left
+  intro i hi
+  have hq := hn (inQ p (.layer i))
+  have hw := hn (wQ p i)
+  have hki : argmax (α (inQ p (.layer i))) < (precOf p c (inQ p (.layer i))).length := by
+    rw [← hq.1]; exact argmax_lt _ hq.2
+  have hkw : argmax (α (wQ p i)) < (precOf p c (wQ p i)).length := by
+    rw [← hw.1]; exact argmax_lt _ hw.2
+  have := layerCost_onehot (opsBit (p.nd i))
+    (modifiedVars modKeys (p.nd i) (effIn p (outEffOf p c (hardSampled α)) i) (p.nd i).cout)
+    (precOf p c (inQ p (.layer i))) (precOf p c (wQ p i)) _ _ hki hkw
+  rw [opsBit_shown (p.nd i) (hl i hi)] at this
+  have h2 := this.trans (show _ = numWeights (p.nd i) (effIn p (outEffOf p c (hardSampled α)) i)
+      * positions (p.nd i) * ((precOf p c (wQ p i)).getD (argmax (α (wQ p i))) 0 : Rat)
+      * ((precOf p c (inQ p (.layer i))).getD (argmax (α (inQ p (.layer i)))) 0 : Rat) by
+    rw [numWeights_eq]; ring)
+  simp only [layerCostOf, baseSpec, hardSampled, wShares, sampleHard, hq.1, hw.1, planOf, selOf,
+    Option.getD_some] at h2 ⊢
+  exact h2
+
 /-! ### effective input features through the calculators -/
 
 def Ref.idx : Ref → Nat
